@@ -350,3 +350,47 @@ def processing_rule(repo):
     else:
         out.append(unrecognised("PROCESS", fi, role, str([x for x in src if "attr_chunk" in x or "hypothetical_attributions" in x])[:300]))
     return out
+
+
+def maxpool_rule(repo):
+    """the max-pool backward rule recomputes the arg-max positions: it must do so with the module's own configuration"""
+    fi = repo.func(D + "._maxpool")
+    out = []
+    role = "arg-max positions are recomputed with the pooled module's full configuration (kernel, stride, padding, dilation, ceil_mode)"
+    pools = [n for n in walk_no_nested(fi.node) if isinstance(n, ast.Call) and unparse(n.func) == "pool_func"]
+    if len(pools) != 1:
+        out.append(unrecognised("MAXPOOL", fi, role, "pool_func call not found"))
+    else:
+        c = pools[0]
+        used = {x.attr for a in list(c.args) + [k.value for k in c.keywords] for x in ast.walk(a)
+                if isinstance(x, ast.Attribute) and isinstance(x.value, ast.Name) and x.value.id == "module"}
+        need = {"kernel_size", "stride", "padding", "dilation", "ceil_mode"}
+        miss = sorted(need - used)
+        first = unparse(c.args[0]) if c.args else ""
+        ri = (len(c.args) >= 7 and const_value(c.args[6]) is True) or const_value(kwarg(c, "return_indices")) is True
+        pos = [unparse(a) for a in c.args[1:6]]
+        order_ok = pos == ["module." + x for x in ("kernel_size", "stride", "padding", "dilation", "ceil_mode")][:len(pos)]
+        if miss:
+            out.append(violation("MAXPOOL", fi, role, "`module.%s` is not passed: the positions are recomputed with the default value, so for a module configured "
+                                 "otherwise the output difference is routed to the wrong inputs" % miss[0], c, witness={"missing": miss}))
+        elif first != "module.input" or not ri:
+            out.append(violation("MAXPOOL", fi, role, "pooling is recomputed on `%s` (return_indices=%s)" % (first, ri), c))
+        elif not order_ok:
+            out.append(violation("MAXPOOL", fi, role, "positional arguments are out of order: %s" % pos, c))
+        else:
+            out.append(holds("MAXPOOL", fi, role, unparse(c)[:110], c))
+    role = "un-pooling routes grad_output * delta_out back through the same positions and geometry"
+    unp = [n for n in walk_no_nested(fi.node) if isinstance(n, ast.Call) and unparse(n.func) == "unpool_func"]
+    if len(unp) != 1:
+        out.append(unrecognised("MAXPOOL", fi, role, "unpool_func call not found"))
+    else:
+        a = [unparse(x) for x in unp[0].args]
+        ok = a == ["grad_output[0] * delta_out", "indices", "module.kernel_size", "module.stride", "module.padding", "list(module.input.shape)"]
+        out.append((holds if ok else unrecognised)("MAXPOOL", fi, role, ", ".join(a)[:120], unp[0], nontrivial=False))
+    role = "delta_out is (max(out, out_ref) - out_ref ; out - max(out, out_ref)) over the two halves; the result falls back to the plain gradient where delta_in ~ 0"
+    src = [unparse(s_) for s_ in walk_no_nested(fi.node) if isinstance(s_, ast.Assign)]
+    need = ["delta_out_xmax = torch.max(output, output_ref)", "delta_out = torch.cat([delta_out_xmax - output_ref, output - delta_out_xmax])",
+            "unpool_delta_ = unpool_delta + unpool_ref_delta", "new_grad_inp = torch.where(idxs, grad_input[0], unpool_delta / delta_in)"]
+    ok = [x for x in src if x in need] == need
+    out.append((holds if ok else unrecognised)("MAXPOOL", fi, role, "; ".join(need)[:160], fi.node, nontrivial=False))
+    return out
